@@ -56,8 +56,14 @@ func (e *Env) deferStmt(s *ast.DeferStmt) {
 			site.fn = fo
 		}
 	}
-	if fl, ok := ast.Unparen(x.Fun).(*ast.FuncLit); ok && len(x.Args) == 0 && fl.Type.Params.NumFields() == 0 && (fl.Type.Results == nil || fl.Type.Results.NumFields() == 0) {
+	if fl, ok := ast.Unparen(x.Fun).(*ast.FuncLit); ok && (fl.Type.Results == nil || fl.Type.Results.NumFields() == 0) {
 		site.lit = fl
+		// the arguments of a deferred call are evaluated when the defer statement executes
+		if lsig, ok := e.info().Types[fl].Type.(*types.Signature); ok && len(x.Args) > 0 {
+			for _, a := range e.evalArgs(x, lsig) {
+				site.args = append(site.args, e.freeze(a))
+			}
+		}
 		e.assign(site.armed, SBool, True)
 		e.defers = append(e.defers, site)
 		e.mayArmed[site] = true
@@ -118,7 +124,7 @@ func (e *Env) runDefers() {
 		savedFC := e.forceClass
 		e.forceClass = -1
 		if d.lit != nil {
-			e.inlineLit(d.call, d.lit)
+			e.inlineLitArgs(d.call, d.lit, d.args, true)
 		} else {
 			e.invoke(d.fn, rv, d.args, d.call.Pos(), nil)
 		}
